@@ -52,6 +52,21 @@ for nm in ['b', 'x1', 'b c', 'a.b', 'if', "q'", '9z', 'é', 'b-c']:
                     viol.append({'what': '%s of a path that runs through an existing leaf is accepted and changes another binding' % op, 'path': path, 'doc': base, 'text': out})
             except (KeyError, ValueError): pass
             except Exception as ex: viol.append({'what': '%s raises %s' % (op, type(ex).__name__), 'path': path, 'doc': base})
+# ---- names that contain the scope marker, addressed WITH a scope selector (eighth round): only the leading @ run selects the layer
+from edit_lib import read_layers
+for nm in ['user@host', 'a@b', '@x', 'x@', '@', 'a.b@c']:
+    for doc_, depth, layer_index in [('let\n  q = 1;\nin\n{\n  x = q;\n}\n', 1, 0), ('let\n  a = 1;\nin\nlet\n  b = 2;\nin\n{\n  c = a;\n}\n', 1, 1), ('let\n  a = 1;\nin\nlet\n  b = 2;\nin\n{\n  c = a;\n}\n', 2, 0)]:
+        path = '@' * depth + quote(nm); n_eval += 1; kinds['scoped-at-name'] = kinds.get('scoped-at-name', 0) + 1
+        try:
+            t1 = set_value(source=parse(doc_), npath=path, value='5'); l1 = read_layers(t1)
+            if l1 is None or l1[layer_index].get(quote(nm)) != '5' or any(quote(nm) in L for i, L in enumerate(l1) if i != layer_index):
+                viol.append({'what': 'a scoped path whose name contains @ is not written into the selected let layer', 'path': path, 'doc': doc_, 'text': t1}); continue
+            t2 = set_value(source=parse(t1), npath=path, value='6'); l2 = read_layers(t2)
+            if l2 is None or l2[layer_index].get(quote(nm)) != '6' or sum(len(L) for L in l2) != sum(len(L) for L in l1):
+                viol.append({'what': 'a second scoped set with a name that contains @ does not find the same binding', 'path': path, 'doc': doc_, 'text': t2}); continue
+            t3 = remove_value(source=parse(t2), npath=path); l3 = read_layers(t3)
+            if l3 is None or any(quote(nm) in L for L in l3): viol.append({'what': 'scoped rm with a name that contains @ does not remove the binding', 'path': path, 'doc': doc_, 'text': t3})
+        except Exception as ex: viol.append({'what': 'scoped edit with a name that contains @ raises %s' % type(ex).__name__, 'path': path, 'doc': doc_})
 # a malformed bare segment after a quoted one is refused like anywhere else
 for bad_path in ['"a"..b', '"a".', '"a".1x', '"a".b c', '"a b".', '"a".b..c', '"a"."b".-']:
     n_eval += 1; kinds['malformed-after-quoted'] = kinds.get('malformed-after-quoted', 0) + 1
